@@ -14,6 +14,7 @@ import (
 	"encoding/json"
 	"fmt"
 	"net/http/httptest"
+	"net/url"
 	"runtime"
 	"sort"
 	"strings"
@@ -310,6 +311,11 @@ func predict(tree *tr.Node, op *Op) (unmet []rec, pinged []*tr.Node, v kit.Verdi
 		case want && len(got) == 1:
 			unmet = append(unmet, rec{leaf, side, got[0], apiForm(op)})
 		case !want && len(got) == 0:
+		case want && len(got) > 1:
+			// "one error for each time an expectation was evaluated and not met ... none duplicated"
+			v.Addf("C13/leaf/"+kindOf(leaf)+"-verifier/several-errors-for-one-unmet-evaluation",
+				"%s on %s %s (status %v): one evaluation of a fresh instance yields %d errors: %q", leaf.JSON(), side, rq.URLString(), statusOf(rs), len(got), got)
+			unmet = append(unmet, rec{leaf, side, got[0], apiForm(op)})
 		default:
 			v.Addf("C13/leaf/"+kindOf(leaf)+"-verifier/isolated-instance-disagrees-with-documented-expectation",
 				"%s on %s %s (status %v): documented expectation unmet=%v, a fresh instance reports %q", leaf.JSON(), side, rq.URLString(), statusOf(rs), want, got)
@@ -713,6 +719,12 @@ func classes(c Case) []string {
 		if f := apiForm(&c.Ops[i]); f != "" {
 			cl = appendOnce(cl, "api-mark:"+f)
 		}
+		if c.Ops[i].K == "X" && hasBadQuery(c.Ops[i].Req) {
+			cl = appendOnce(cl, "unparsable-query")
+			if s.kinds["querystring"] {
+				cl = appendOnce(cl, "unparsable-query-with-querystring-verifier")
+			}
+		}
 	}
 	au, ur, ap, eu := dynStats(c)
 	if au {
@@ -848,8 +860,40 @@ var apiURLForms = [][3]string{
 	{"http", "martian.proxy", ""},
 }
 
-func genExchange(t *rapid.T) Op {
-	rq, rs := tr.GenPairOpt(t, false) // what querystring.Verifier expects of an unparsable query is not part of the statement
+// unparsableQueriesOK: a request with an unparsable query is well defined for
+// the tree when at most one querystring.Verifier can ever evaluate it (exactly
+// one error: the form fails to parse). Two of them on one request interact
+// through http.Request.ParseForm's cache, which the statement says nothing
+// about; such trees only see parsable queries.
+func unparsableQueriesOK(tree *tr.Node) bool {
+	n := 0
+	tree.Walk(func(x *tr.Node, _ int) {
+		if x.T == tr.QueryVerifier {
+			n++
+		}
+	})
+	return n <= 1
+}
+
+func hasBadQuery(rq *tr.Req) bool {
+	_, err := url.ParseQuery(rq.Query)
+	return err != nil
+}
+
+func genExchange(t *rapid.T, badQueryOK bool) Op {
+	rq, rs := tr.GenPairOpt(t, false)
+	if badQueryOK && uni(t, "badquery", 5) == 0 {
+		// ';' separator, stray '%', bad escape: the pairs around it still decode
+		bad := pick(t, "badpair", tr.BadQueryPairs)
+		switch {
+		case rq.Query == "":
+			rq.Query = bad
+		case uni(t, "badfirst", 2) == 0:
+			rq.Query = bad + "&" + rq.Query
+		default:
+			rq.Query += "&" + bad
+		}
+	}
 	op := Op{K: "X", Req: &rq, Res: &rs}
 	op.API = uni(t, "api", 4) == 0
 	if op.API && uni(t, "direct", 4) > 0 {
@@ -870,11 +914,12 @@ func genExchange(t *rapid.T) Op {
 
 func genCase(t *rapid.T) Case {
 	c := Case{Tree: genTree(t)}
+	badOK := unparsableQueriesOK(c.Tree)
 	n := 1 + uni(t, "nops", kit.N(30, 80))
 	for i := 0; i < n; i++ {
 		switch k := uni(t, "op", 10); {
 		case k < 6:
-			c.Ops = append(c.Ops, genExchange(t))
+			c.Ops = append(c.Ops, genExchange(t, badOK))
 		case k < 8:
 			c.Ops = append(c.Ops, Op{K: "V"})
 		default:
@@ -884,7 +929,7 @@ func genCase(t *rapid.T) Case {
 	return c
 }
 
-var seqRule = "verifier-bearing configuration trees (fifo groups, url/header/querystring/method/cookie filters with verifiers in either branch, status/header/method/url/querystring/failure/pingback verifiers, scope drawn at every node, depth <= 4) installed through the configuration endpoint; histories of <= 30|80 exchanges (1 in 4 addressed to the proxy API: 3 of 4 of those by URL - virtual host martian.proxy or the API server address itself in several spellings - and marked by the real api.Forwarder, the rest by ctx.APIRequest()), queries and resets through the real verify and reset handlers; after every step the handler's error list is compared as a multiset with the model; non-trivial = a verifier in an else-branch, nesting depth >= 3, >= 2 resets, or an API request"
+var seqRule = "verifier-bearing configuration trees (fifo groups, url/header/querystring/method/cookie filters with verifiers in either branch, status/header/method/url/querystring/failure/pingback verifiers, scope drawn at every node, depth <= 4) installed through the configuration endpoint; histories of <= 30|80 exchanges (1 in 4 addressed to the proxy API: 3 of 4 of those by URL - virtual host martian.proxy or the API server address itself in several spellings - and marked by the real api.Forwarder, the rest by ctx.APIRequest()), queries and resets through the real verify and reset handlers; trees with at most one querystring.Verifier also get requests whose query does not parse (1 exchange in 5: semicolon separator, stray percent sign, bad escape); after every step the handler's error list is compared as a multiset with the model; non-trivial = a verifier in an else-branch, nesting depth >= 3, >= 2 resets, or an API request"
 
 var propSequential = &kit.Prop[Case]{
 	ID: "C13", Name: "histories", Rule: "rapid-drawn " + seqRule,
@@ -892,7 +937,7 @@ var propSequential = &kit.Prop[Case]{
 	Gates: map[string]float64{
 		"verifier-in-else": 0.15, "response-verifier-in-else": 0.05, "resets>=2": 0.30, "has-api-request": 0.40,
 		"unmet-recorded": 0.40, "unmet-then-reset": 0.25, "api-request-would-be-unmet": 0.20, "unmet-in-else-branch": 0.08,
-		"api-mark:direct": 0.15, "api-mark:url-virtual-host": 0.25, "api-mark:url-already-forwarder-target": 0.25, "api-mark:url-names-target-in-other-spelling": 0.25,
+		"unparsable-query-with-querystring-verifier": 0.10, "api-mark:direct": 0.15, "api-mark:url-virtual-host": 0.25, "api-mark:url-already-forwarder-target": 0.25, "api-mark:url-names-target-in-other-spelling": 0.25,
 	},
 }
 
@@ -910,7 +955,7 @@ func TestHistories(t *testing.T) {
 // reset, query. This is the matrix in which the anticipated defects live.
 var propEnum = &kit.Prop[Case]{
 	ID: "C13", Name: "enum-branch-matrix",
-	Rule: "ALL 5 filter kinds x {modifier, else} branch x 7 verifier types x {bare filter, filter inside a fifo group} x {ordinary, API marked directly, API by virtual host through the forwarder, API by the forwarder's own target URL through the forwarder} exchange that reaches the verifier with an unmet expectation, then query, reset, query; non-trivial = same rule as the histories check",
+	Rule: "ALL 5 filter kinds x {modifier, else} branch x 7 verifier types x {bare filter, filter inside a fifo group} x {ordinary, API marked directly, API by virtual host through the forwarder, API by the forwarder's own target URL through the forwarder} exchange that reaches the verifier with an unmet expectation, then query, reset, query; plus 4 unparsable query pairs x {alone, after, before a pair that decodes} x expected key {decoded, not decoded} x {bare, in a group} on one querystring.Verifier; non-trivial = same rule as the histories check",
 	Run:  runSequential, NonTrivial: nontrivial, Classes: classes,
 }
 
@@ -968,6 +1013,27 @@ func TestEnum(t *testing.T) {
 							if !yield(Case{Tree: root, Ops: ops}) {
 								return
 							}
+						}
+					}
+				}
+			}
+		}
+		// one querystring.Verifier, one request whose query does not parse:
+		// exactly one error, whether or not the expected key is among the pairs
+		// that did decode
+		for _, bad := range tr.BadQueryPairs {
+			for _, key := range []string{"p", "k"} {
+				for _, query := range []string{bad, "p=1&" + bad, bad + "&p=1"} {
+					for wrap := 0; wrap < 2; wrap++ {
+						root := &tr.Node{ID: 3, T: tr.QueryVerifier, P: map[string]string{"name": key}}
+						if wrap == 1 {
+							root = &tr.Node{ID: 1, T: tr.Fifo, Kids: []*tr.Node{root}}
+						}
+						q, s := rq, rs
+						q.Query = query
+						ops := []Op{{K: "X", Req: &q, Res: &s}, {K: "V"}, {K: "Z"}, {K: "V"}}
+						if !yield(Case{Tree: root, Ops: ops}) {
+							return
 						}
 					}
 				}
@@ -1256,11 +1322,12 @@ var propConcurrent = &kit.Prop[ConcCase]{
 			// under FIFO groups"; a root group with everything below it.
 			c.Tree = &tr.Node{ID: 700000, T: tr.Fifo, Kids: []*tr.Node{c.Tree}}
 		}
+		badOK := unparsableQueriesOK(c.Tree)
 		for g := 0; g < 4; g++ {
 			n := uni(t, "ntraffic", kit.N(12, 25)+1)
 			ops := []Op{}
 			for i := 0; i < n; i++ {
-				ops = append(ops, genExchange(t))
+				ops = append(ops, genExchange(t, badOK))
 			}
 			c.Traffic = append(c.Traffic, ops)
 		}
